@@ -1,5 +1,6 @@
 import PhysisModel.Proofs.C18Hdr
 import PhysisModel.Proofs.C18Fmt
+import PhysisModel.Proofs.C18Dat
 /-!
 # C18 — damaged game data is rejected without crashing
 
@@ -102,6 +103,27 @@ theorem c18_exdrow_total (e d : Bytes) (id : Nat) : ¬ faults (C18Fmt.exdRow e d
   (C18Fmt.exdRow_good e d id).1
 theorem c18_exdrow_alloc (e d : Bytes) (id : Nat) :
     (C18Fmt.exdRow e d id).peak ≤ 64 * (e.length + d.length) + 16777216 := (C18Fmt.exdRow_good e d id).2
+
+/-! ## step 2 (archive side): dat reader, inflate life-cycle -/
+
+/-- `SqPackData::read_from_offset` (standard, model and texture entries; `read_data_block`), repaired
+by `fixes/C18-06/07`: for every dat file, every offset and **every behaviour of `inflate`** -/
+theorem c18_dat_total (infl : Bytes → Nat → Bool) (w : Bytes) (offset : Nat) :
+    ¬ faults (C18Dat.readFromOffset infl w offset) := (C18Dat.readFromOffset_good infl w offset).1
+theorem c18_dat_alloc (infl : Bytes → Nat → Bool) (w : Bytes) (offset : Nat) :
+    (C18Dat.readFromOffset infl w offset).peak ≤ 64 * w.length + 16777216 :=
+  (C18Dat.readFromOffset_good infl w offset).2
+
+/-- every path through `no_header_decompress` (repaired by `fixes/C18-05`) that initialises the
+inflate stream also ends it, whatever `inflate` returns -/
+theorem c18_inflate_balanced (initOk streamEnd : Bool) (h : initOk = true) :
+    ((C18Dat.decompressTrace initOk streamEnd).1.count .end_ = 1) ∧
+    ((C18Dat.decompressTrace initOk streamEnd).1.count .init = 1) := by
+  subst h; cases streamEnd <;> decide
+/-- the pinned commit leaks the stream state when `inflate` does not reach `Z_STREAM_END` -/
+theorem c18_inflate_unfixed_witness :
+    (C18Dat.decompressTraceUnfixed true false).1.count .end_ = 0 := by decide
+example : (C18Dat.decompressTrace true false).1 = [.init, .inflate, .end_] := by decide
 
 /-- non-vacuity: the models accept well-formed headers (a 16-byte `uldh`/`0100` header parses) -/
 example : (C18Hdr.uld [0x75, 0x6c, 0x64, 0x68, 0x30, 0x31, 0x30, 0x30, 1, 0, 0, 0, 2, 0, 0, 0]).isOk = true := by
